@@ -24,6 +24,8 @@ RULES = [
     (r"^layout/A1=&HFF$", "KF-C08-blank-inside-hex-literal"),
     (r"^layout/A1=10$", "KF-C08-blank-inside-decimal-literal"),
     (r"^layout/A1=1\.5E\+3$", "KF-C08-blank-inside-decimal-literal"),
+    (r"^rule-kind/exp/A1\*2$", "KF-C14-BinaryExp-always-string-kinded"),
+    (r"^mutations/HCIRCLE\(A1,A1\),A1,A1$", "KF-C15-HCIRCLE-trailing-comma-internal-error"),
     (r"^kinds/ecb_joystk/", "KF-C04-JOYSTK-call-passes-2-of-6-arguments"),
     (r"^kinds/ecb_hprint/numeric item", "KF-C14-HPRINT-numeric-item-gets-numeric-temporary"),
 ]
